@@ -203,6 +203,7 @@ Property prop_C06(const std::string& variant) {
         GenOpts o;
         o.id_schemes = ids_for(need_config(c.base.cfg));
         c.exhaustive = ch.chance(1, 6);
+        o.big_pool = !c.exhaustive;
         if (c.exhaustive) {
             o.max_classes = 3;
             o.max_methods = 2;
